@@ -640,7 +640,134 @@ func runC16(cfg *runCfg) error {
 	res.Histogram = feats
 	res.Shards = writeShardsPlain(cfg.out, "c16cases", "From Coq Require Import String List Bool.\nFrom WZ Require Import Model.Template Corr.TemplateCorr.\nImport ListNotations.\nOpen Scope string_scope.\n", "case", "mismatches", cases, 50)
 	// the number of cases that meet the premises of the theorem is computed by Coq as well
-	for _, f := range res.Shards {
+	tplShards := res.Shards
+	// ---- blocks with inheritance: a chain of templates, each extending the one before; the leaf is rendered.
+	// Reference: the text of the root with every block replaced by the nearest override on the way from the leaf to
+	// the root (else its default), rendered by the reference interpreter.  Model: Model/Engine.v (Corr/EngineCorr.v).
+	var inhCases []string
+	for ci := 0; ci < cfg.n/5; ci++ {
+		g := &tgen{r: r.fork(), feats: map[string]int{}}
+		depth := g.r.rangeI(1, 4) // number of derived templates
+		type seg struct {
+			block string
+			nodes []*tnode
+		}
+		var segs []seg
+		names := []string{"a", "b", "c"}
+		g.r.shuffle(len(names), func(i, j int) { names[i], names[j] = names[j], names[i] })
+		nb := g.r.rangeI(1, 3)
+		for i := 0; i < nb; i++ {
+			segs = append(segs, seg{"", g.flat(false, false)})
+			segs = append(segs, seg{names[i], append([]*tnode{{kind: "lit", s: "D" + names[i]}}, g.flat(false, false)...)})
+		}
+		if g.r.chance(60) {
+			segs = append(segs, seg{"", g.top()})
+		}
+		var root strings.Builder
+		for _, sg := range segs {
+			if sg.block == "" {
+				printNodes(sg.nodes, &root)
+			} else {
+				root.WriteString("{{#block \"" + sg.block + "\"}}")
+				printNodes(sg.nodes, &root)
+				root.WriteString("{{/block}}")
+			}
+		}
+		ops := []engOp{{Kind: "load", Name: "t0", Content: root.String()}}
+		overrides := make([]map[string][]*tnode, depth+1)
+		for lvl := 1; lvl <= depth; lvl++ {
+			overrides[lvl] = map[string][]*tnode{}
+			var b strings.Builder
+			b.WriteString(fmt.Sprintf("{{extends \"t%d\"}}", lvl-1))
+			for _, bn := range []string{"a", "b", "c", "zz"} {
+				if g.r.chance(50) {
+					ns := append([]*tnode{{kind: "lit", s: fmt.Sprintf("O%d%s", lvl, bn)}}, g.flat(false, false)...)
+					overrides[lvl][bn] = ns
+					b.WriteString("\n{{#block \"" + bn + "\"}}")
+					printNodes(ns, &b)
+					b.WriteString("{{/block}}")
+				}
+			}
+			ops = append(ops, engOp{Kind: "load", Name: fmt.Sprintf("t%d", lvl), Content: b.String()})
+		}
+		bad := false
+		for _, o := range ops {
+			if strings.Contains(o.Content, "\"") && strings.Count(o.Content, "\"") != 2*strings.Count(o.Content, "{{#block")+2*strings.Count(o.Content, "{{extends") {
+				bad = true // a literal with a quotation mark: the directives' own quotes are the only ones allowed
+			}
+		}
+		if bad {
+			feats["inheritance: skipped (quotation mark in a literal)"]++
+			continue
+		}
+		d := g.data()
+		leaf := fmt.Sprintf("t%d", g.r.rangeI(0, depth))
+		leafLvl := 0
+		fmt.Sscanf(leaf, "t%d", &leafLvl)
+		var eff []*tnode
+		overridden := 0
+		for _, sg := range segs {
+			ns := sg.nodes
+			if sg.block != "" {
+				for lvl := leafLvl; lvl >= 1; lvl-- {
+					if o, ok := overrides[lvl][sg.block]; ok {
+						ns = o
+						overridden++
+						break
+					}
+				}
+			}
+			eff = append(eff, ns...)
+		}
+		te := document.NewTemplateEngine()
+		loadOK := true
+		for _, o := range ops {
+			if _, err := te.LoadTemplate(o.Name, o.Content); err != nil {
+				loadOK = false
+			}
+		}
+		if !loadOK {
+			feats["inheritance: a template of the chain does not load"]++
+			continue
+		}
+		res.Evaluations++
+		feats[fmt.Sprintf("inheritance: leaf %d levels above the root", leafLvl)]++
+		if overridden > 0 {
+			feats["inheritance: a block of the root is overridden on the way"]++
+		}
+		rop := engOp{Kind: "render", Name: leaf, data: d}
+		got, ok := renderText(te, leaf, d)
+		out := "None"
+		if ok {
+			out = "Some " + cStrRaw(got)
+		}
+		var coqOps []string
+		for _, o := range append(ops, rop) {
+			coqOps = append(coqOps, engOpCoq(o))
+		}
+		inhCases = append(inhCases, fmt.Sprintf("([%s],\n  [%s])", strings.Join(coqOps, ";\n  "), out))
+		dist.add(strings.Join(coqOps, ";"))
+		if !ok {
+			res.OracleFailures = append(res.OracleFailures, OracleFailure{Clause: "renders", Class: "render_error", Detail: "a template of an inheritance chain does not render: " + strings.Join(coqOps, "; "), CaseID: ci})
+			continue
+		}
+		if isDirty(d) || litsFormBraces(eff) {
+			continue
+		}
+		var rb strings.Builder
+		refRender(eff, d, nil, 0, 0, &rb)
+		want := strings.Join(linesOf(rb.String()), "\n")
+		if strings.Join(linesOf(got), "\n") != want {
+			failCount["inheritance_differs"]++
+			if failCount["inheritance_differs"] <= 5 {
+				res.OracleFailures = append(res.OracleFailures, OracleFailure{Clause: "rendered_text", Class: "inheritance_differs",
+					Detail: fmt.Sprintf("chain %s: rendering %s with %s gives %q; the root with the nearest overrides gives %q", strings.Join(coqOps[:len(coqOps)-1], " ; "), leaf, d.coq(), got, want), CaseID: ci})
+			}
+		}
+	}
+	res.DistinctNontrivial = dist.n()
+	res.Shards = append(res.Shards, writeShardsPlain(cfg.out, "c16inh", "From Coq Require Import String List Bool.\nFrom WZ Require Import Model.Template Model.Engine Corr.EngineCorr.\nImport ListNotations.\nOpen Scope string_scope.\n", "(list op * list (option string))", "mismatches", inhCases, 40)...)
+	for _, f := range tplShards {
 		fh, err := os.OpenFile(filepath.Join(cfg.out, f), os.O_APPEND|os.O_WRONLY, 0644)
 		if err == nil {
 			fh.WriteString("Definition T := Eval vm_compute in theorem_cases cases.\nPrint T.\n")
